@@ -103,6 +103,28 @@ type EnvKey struct{ A int }
 
 func (k EnvKey) String(native.Env) string { return fmt.Sprintf("envkey%d", k.A) }
 
+// Maps and byte slices that are showable only through their method, with
+// keys / elements the renderer cannot show by itself.
+type (
+	SMap          map[struct{ A int }]int
+	SMapArr       map[[2]int]string
+	EnvSMap       map[struct{ A int }]int
+	ErrSMap       map[struct{ A int }]int
+	HTMLSMap      map[struct{ A int }]int
+	BytesStringer []byte
+	BytesErr      []byte
+	StructSlice   []struct{ F func() }
+)
+
+func (m SMap) String() string              { return fmt.Sprintf("smap%d<", len(m)) }
+func (m SMapArr) String() string           { return fmt.Sprintf("smaparr%d", len(m)) }
+func (m EnvSMap) String(native.Env) string { return fmt.Sprintf("envsmap%d", len(m)) }
+func (m ErrSMap) Error() string            { return fmt.Sprintf("errsmap%d", len(m)) }
+func (m HTMLSMap) HTML() native.HTML       { return "<i>m</i>" }
+func (b BytesStringer) String() string     { return "bytes:" + string(b) }
+func (b BytesErr) Error() string           { return "byteserr:" + string(b) }
+func (s StructSlice) String() string       { return fmt.Sprintf("structslice%d", len(s)) }
+
 type PtrErr struct{ Code int }
 
 func (e *PtrErr) Error() string { return "ptrerr <>&" }
@@ -202,6 +224,11 @@ func types() []typ {
 		ty(struct{ M map[[1]int]int }{map[[1]int]int{{1}: 1}}, struct{ M map[[1]int]int }{map[[1]int]int{{2}: 1}}),
 		ty([]map[ErrKey]int{{{1}: 1}}, []map[ErrKey]int{{{2}: 1}}), ty(map[string]map[ErrKey]int{"a": {{1}: 1}}, map[string]map[ErrKey]int{"b": {{2}: 1}}),
 		ty(&map[ErrKey]int{{1}: 1}, &map[ErrKey]int{{2}: 1}),
+		// showable only through a method, with parts the renderer cannot show itself
+		ty(SMap{{1}: 1}, SMap{{2}: 1, {3}: 2}), ty(SMapArr{{1, 2}: "a"}, SMapArr{{3, 4}: "b"}), ty(EnvSMap{{1}: 1}, EnvSMap{{2}: 2}), ty(ErrSMap{{1}: 1}, ErrSMap{{2}: 2}),
+		ty(HTMLSMap{{1}: 1}, HTMLSMap{{2}: 2}), ty(BytesStringer("ab"), BytesStringer{0, 255, '<'}), ty(BytesErr("ab"), BytesErr{0, 255}), ty(StructSlice{{}}, StructSlice{{}, {}}),
+		ty(&SMap{{1}: 1}, &SMap{{2}: 1}), ty(struct{ M SMap }{SMap{{1}: 1}}, struct{ M SMap }{SMap{{2}: 1}}), ty([]SMap{{{1}: 1}}, []SMap{{{2}: 1}}), ty(map[string]SMap{"a": {{1}: 1}}, map[string]SMap{"b": {{2}: 1}}),
+		ty(&[]byte{1, 2}, &[]byte{0}), ty(&NBytes{1, 2}, &NBytes{0}), ty([][]byte{{1}, nil}, [][]byte{{}}), ty(struct{ B []byte }{[]byte("a")}, struct{ B []byte }{[]byte{255}}),
 		ty(st1, st2), ty(struct{}{}, struct{}{}), ty(struct{ a int }{1}, struct{ a int }{2}), ty(struct{ P uintptr }{1}, struct{ P uintptr }{2}),
 		ty(func() {}, func() {}), ty(func(int) string { return "" }, func(int) string { return "x" }), ty(c1, c2), ty((<-chan int)(c1), (<-chan int)(c2)),
 		ty(t1, t2), ty(&t1, &t2), ty(time.Second, -90*time.Minute),
@@ -267,6 +294,34 @@ var modes = []struct {
 	{"boxed in fmt.Stringer", stringerT},
 }
 
+// nBase is the number of one-show sites of the grid; the sites after them
+// show v in further positions of a URL, next to the string global base
+// ("p?a=1", a value that contains a query).
+var nBase = len(contexts)
+
+var urlSites = []showCtx{
+	{"URL: directly after a shown value that has a query", "(quoted attribute)", "index.html", `<a href="{{ base }}{{ v }}">x</a>`},
+	{"URL: after a shown value that has a query and &x=", "(quoted attribute)", "index.html", `<a href="{{ base }}&x={{ v }}">x</a>`},
+	{"URL: after a shown value that has a query and ?x=", "(quoted attribute)", "index.html", `<a href="{{ base }}?x={{ v }}">x</a>`},
+	{"URL: after a shown value that has a query and ?", "(quoted attribute)", "index.html", `<a href="{{ base }}?{{ v }}">x</a>`},
+	{"URL: first, before another shown value", "(quoted attribute)", "index.html", `<a href="{{ v }}{{ base }}">x</a>`},
+	{"URL: first, before ?x=1", "(quoted attribute)", "index.html", `<a href='{{ v }}?x=1'>x</a>`},
+	{"URL: twice, in the query and in the fragment", "(quoted attribute)", "index.html", `<a href="/p?q=1&amp;r={{ v }}#{{ v }}">x</a>`},
+	{"URL: unquoted, in the query", "(unquoted attribute)", "index.html", `<a href=/p?q={{ v }}>x</a>`},
+	{"URL: unquoted, after a shown value that has a query", "(unquoted attribute)", "index.html", `<a href={{ base }}{{ v }}>x</a>`},
+	{"URL: form action", "(quoted attribute)", "index.html", `<form action="{{ v }}"></form>`},
+	{"URL: img src, in the query", "(quoted attribute)", "index.html", `<img src='/i?w={{ v }}'>`},
+	{"URL set: second candidate", "(quoted attribute)", "index.html", `<img srcset="/a.png 1x, {{ v }} 2x">`},
+	{"URL set: in the query of both candidates", "(quoted attribute)", "index.html", `<img srcset="/a.png?w={{ v }} 1x, /b.png?w={{ v }} 2x">`},
+	{"URL set: after a shown value that has a query", "(quoted attribute)", "index.html", `<img srcset="{{ base }}{{ v }} 2x, /b.png">`},
+	{"URL in Markdown: in the query", "(Markdown)", "index.md", "see http://x.org/p?q={{ v }} ok"},
+	{"URL in Markdown: after a shown value that has a query", "(Markdown)", "index.md", "see http://x.org/{{ base }}{{ v }} ok"},
+}
+
+func init() { contexts = append(contexts, urlSites...) }
+
+var baseValue = "p?a=1"
+
 type buildKey struct {
 	ctx int
 	t   reflect.Type
@@ -294,7 +349,7 @@ func build(ctx int, t reflect.Type) (*scriggo.Template, error) {
 	r.once.Do(func() {
 		c := contexts[ctx]
 		r.tmpl, r.err = scriggo.BuildTemplate(scriggo.Files{c.file: []byte(c.src)}, c.file,
-			&scriggo.BuildOptions{Globals: native.Declarations{"v": reflect.Zero(reflect.PointerTo(t)).Interface()}})
+			&scriggo.BuildOptions{Globals: native.Declarations{"v": reflect.Zero(reflect.PointerTo(t)).Interface(), "base": &baseValue}})
 	})
 	done = true
 	return r.tmpl, r.err
@@ -420,7 +475,59 @@ func failKey(t reflect.Type, err error) string {
 	if _, ok := err.(*nilMethodPanic); ok {
 		return "accepted at build, Run PANICS|nil pointer whose type has a String/Error/HTML/… method that is not safe on nil (e.g. a value-receiver method: *time.Time)"
 	}
+	if role, kind := offender(t, err); role != "" {
+		return "accepted at build, Run fails|" + role + " of kind " + kind + " inside the shown value|cannot show value of type T"
+	}
 	return "accepted at build, Run fails|kind " + kindPath(t) + "|" + errClass(err)
+}
+
+// offender finds, inside the shown type t, the type that a "cannot show value
+// of type X" error names (a map key, an element, a field), so that every way
+// of nesting one offending part shares a key.
+func offender(t reflect.Type, err error) (role, kind string) {
+	const p = "cannot show value of type "
+	msg := err.Error()
+	i := strings.Index(msg, p)
+	if i < 0 {
+		return "", ""
+	}
+	name := msg[i+len(p):]
+	if name == t.String() {
+		return "", ""
+	}
+	seen := map[reflect.Type]bool{}
+	var walk func(t reflect.Type, role string) (string, string)
+	walk = func(t reflect.Type, role string) (string, string) {
+		if seen[t] {
+			return "", ""
+		}
+		seen[t] = true
+		if t.String() == name && role != "" {
+			if k := t.Kind(); k == reflect.Struct || k == reflect.Array {
+				return role, "struct or array"
+			}
+			return role, kindOnly(t)
+		}
+		switch t.Kind() {
+		case reflect.Map:
+			if r, k := walk(t.Key(), "a map key"); r != "" {
+				return r, k
+			}
+			return walk(t.Elem(), "a map element")
+		case reflect.Slice, reflect.Array:
+			return walk(t.Elem(), "an element")
+		case reflect.Pointer:
+			return walk(t.Elem(), role)
+		case reflect.Struct:
+			for i := 0; i < t.NumField(); i++ {
+				if r, k := walk(t.Field(i).Type, "a field"); r != "" {
+					return r, k
+				}
+			}
+		}
+		return "", ""
+	}
+	return walk(t, "")
 }
 
 func goValue(v reflect.Value) string {
@@ -638,8 +745,8 @@ func representatives(tys []typ) ([]typ, []string) {
 	var reps []typ
 	var rows []string
 	for _, T := range tys {
-		row := make([]byte, len(contexts))
-		for c := range contexts {
+		row := make([]byte, nBase)
+		for c := range contexts[:nBase] {
 			_, err, p := buildSafe(c, T.t)
 			switch {
 			case p:
@@ -669,12 +776,20 @@ func spaces(tier string) []kit.Space {
 			panic(fmt.Sprintf("C09: context %s does not build with v any: %v", c.name, err))
 		}
 		d := string(t.Disassemble(-1))
+		if i >= nBase {
+			// every show of a URL site (of v and of base) is in the site's context
+			if n := strings.Count(d, "Show "); n < 1 || n != strings.Count(d, " "+c.disasm+"\n") || !strings.Contains(d, "Show interface {} g") {
+				panic(fmt.Sprintf("C09: URL site %s: not every Show is %s:\n%s", c.name, c.disasm, d))
+			}
+			continue
+		}
 		if n := strings.Count(d, "Show "); n != 1 || !strings.Contains(d, "Show interface {} g1 "+c.disasm) {
 			panic(fmt.Sprintf("C09: context %s: the template does not have exactly one Show %s:\n%s", c.name, c.disasm, d))
 		}
 	}
 	tys := types()
-	nt, nc, nm := uint64(len(tys)), uint64(len(contexts)), uint64(len(modes))
+	nt, nc, nm := uint64(len(tys)), uint64(nBase), uint64(len(modes))
+	nu := uint64(len(contexts) - nBase)
 	desc := func(T string, ci, mi uint64) any {
 		c := contexts[ci]
 		return map[string]string{"type": T, "context": c.name, "file": c.file, "template": c.src, "global v": modes[mi].name}
@@ -715,6 +830,19 @@ func spaces(tier string) []kit.Space {
 				return desc(tys[d[2]].name, d[1], d[0])
 			},
 		},
+		{
+			Name: "types x further URL positions (after a shown value with a query, after ?/&x=, before another value, fragment, unquoted, action, src, srcset candidates, Markdown) x {static, any, error, fmt.Stringer}",
+			Size: nt * nu * nm,
+			Eval: func(i uint64) kit.Outcome {
+				d := kit.Mixed(i, nm, nu, nt)
+				return eval(tys, int(d[2]), nBase+int(d[1]), int(d[0]))
+			},
+			Describe: func(i uint64) any {
+				d := kit.Mixed(i, nm, nu, nt)
+				return desc(tys[d[2]].name, uint64(nBase)+d[1], d[0])
+			},
+		},
+		definedSpace(),
 		{
 			Name: "nil interface x contexts x {any, error, fmt.Stringer}",
 			Size: nc * (nm - 1),
